@@ -1,4 +1,5 @@
 """C08: filtering keeps exactly the selected IDs, intact and in order; remove_empty; head."""
+import os
 import numpy as np
 
 import biom.table as bt
@@ -295,19 +296,35 @@ def gen_case(rng, spec=None):
 
 
 def exhaustive_small():
+    """every matrix over {0,1,2} of shape 1x2, 2x2, 2x3, 3x2 and every 27th of the 3^9 3x3 matrices (all 3x3
+    matrices with VERIF_C08_FULL=1) x every subset of each axis x invert x inplace (both values up to 2x2,
+    alternating beyond) + one predicate filter per axis + remove_empty on each axis and whole + head(n, m) for
+    every n, m up to the shape, on a table whose column indices were left unsorted by a reordering"""
     import itertools
-    for r, c in [(1, 2), (2, 2), (2, 3)]:
-        for vals in itertools.product([0.0, 1.0, 2.0], repeat=r * c):
+    full = os.environ.get('VERIF_C08_FULL') == '1'
+    for r, c in [(1, 2), (2, 2), (2, 3), (3, 2), (3, 3)]:
+        for num, vals in enumerate(itertools.product([0.0, 1.0, 2.0], repeat=r * c)):
+            if (r, c) == (3, 3) and not full and num % 27 != 13:
+                continue
             mat = [list(vals[i * c:(i + 1) * c]) for i in range(r)]
             spec = {'oids': ['o%d' % i for i in range(r)], 'sids': ['s%d' % i for i in range(c)], 'mat': mat,
                     'omd': None, 'smd': None, 'type': None, 'layout': ['csr', ['via_sort_samp', list(range(c))[::-1]]]}
+            n = 0
             for axis, ids in (('observation', spec['oids']), ('sample', spec['sids'])):
                 for k in range(len(ids) + 1):
                     for keep in itertools.combinations(ids, k):
                         for inv in (False, True):
-                            yield {'kind': 'ids', 'spec': spec, 'axis': axis, 'keep': list(keep), 'invert': inv,
-                                   'inplace': inv, 'ctype': 'list'}
+                            for inplace in ((False, True) if r * c <= 4 else (bool((n + inv) % 2),)):
+                                yield {'kind': 'ids', 'spec': spec, 'axis': axis, 'keep': list(keep), 'invert': inv,
+                                       'inplace': inplace, 'ctype': 'list'}
+                        n += 1
                 yield {'kind': 'pred', 'spec': spec, 'axis': axis, 'pred': 'sum_gt1', 'invert': False, 'inplace': False, 'kernel': True}
+            for ax in ('observation', 'sample', 'whole'):
+                yield {'kind': 'remove_empty', 'spec': spec, 'axis': ax, 'inplace': ax == 'sample'}
+            if num % 9 == 4:
+                for hn in range(1, r + 1):
+                    for hm in range(1, c + 1):
+                        yield {'kind': 'head', 'spec': spec, 'n': hn, 'm': hm}
 
 
 def gen(rng, tier):
